@@ -38,6 +38,8 @@ pub mod plain_engine;
 #[cfg(feature = "cb-std")]
 pub mod props;
 #[cfg(feature = "cb-std")]
+pub mod reloc_engine;
+#[cfg(feature = "cb-std")]
 pub mod runner;
 #[cfg(feature = "cb-std")]
 pub mod tracked;
